@@ -70,6 +70,8 @@ pub fn walk(ctx: &Ctx, l: &mut Local, p: &Params, site: Site, dates: &[NaiveDate
 }
 
 pub fn explore(ctx: &Ctx) {
+    // call sequences from non-initial states (see history.rs)
+    crate::history::explore(ctx, "place_time", &crate::history::alphabet_place_time(), 3);
     let quick = ctx.tier == Tier::Quick;
     ctx.rule("every run of three consecutive dates of 1600-01-01..2399-12-31 is one case per (site, method); all are distinct; non-trivial = the triple was judged (all latitudes of the alphabet lie in the property's domain for at least Dhuhr/Shurooq/Maghrib)");
     ctx.assume("differences taken cyclically on whole (truncated) seconds; the stated bounds are applied to these observed values (measured worst cases 2/4/4/6 s leave room for the <2 s quantisation of a second difference)");
